@@ -120,7 +120,10 @@ def st_fitted(draw):
            "range_frac": sorted([draw(st.floats(0.0, 1.0)), draw(st.floats(0.0, 1.0))])}
     mod = {"spikes": draw(st.sampled_from([0, 0, 1, 2, 4, 8])), "spike_amp": draw(st.floats(0.02, 1.0)),
            "spike_width": draw(st.integers(1, 4)), "seed": draw(st.integers(0, 2 ** 20)),
-           "shift": draw(st.sampled_from(["none"] * 8 + ["max0", "negative"]))}
+           "shift": draw(st.sampled_from(["none"] * 8 + ["max0", "negative"])),
+           # the tip position stops falling and creeps up over the last samples of the approach (hard substrate,
+           # deflection sensitivity a few percent off): a non-monotonic abscissa
+           "creep": draw(st.sampled_from([0, 0, 0, 0, 6, 15, 40]))}
     arb = draw(st.sampled_from([1e9, 1e9, 1e3, 1e12, None]))
     if arb is None:
         arb = 10 ** draw(st.floats(-3.0, 12.0))
@@ -204,6 +207,15 @@ def modify(idnt, mod, src):
         f = f - np.max(f[seg0]) - 0.5 * span
     if mod["spikes"] or mod["shift"] != "none":
         idnt["force"] = f
+    m = int(mod.get("creep") or 0)
+    if m and "tip position" in idnt and seg0.size > m + 10:
+        x = idnt["tip position"].copy()
+        xa = x[seg0]
+        depth = float(np.max(xa) - np.min(xa))
+        if depth > 0 and xa[0] > xa[-1]:
+            # first sample stays the largest: only the tail rises by up to 4 % of the travel
+            x[seg0[-m:]] = x[seg0[-m - 1]] + np.linspace(0, 0.04 * depth, m + 1)[1:]
+            idnt["tip position"] = x
 
 
 def do_fit(idnt, fit, range_x=None):
@@ -380,6 +392,7 @@ def check_fitted(case, ctx):
     kind = src["kind"] if src["kind"] == "synth" else src["pool"]
     classes = [kind, "fit_" + fit["model_key"], "cpmode_" + fit["cp"]["mode"], f"segment{fit['segment']}",
                "shift_" + mod["shift"], "spikes" if mod["spikes"] else "no_spikes",
+               "tip_creep" if mod.get("creep") else "tip_monotone",
                "x_" + fit["x_axis"].split()[0], "gcf_1" if fit["gcf_k"] == 1 else "gcf_not_1",
                "range_" + str(fit["range"]).split()[0]]
     idnt = build(case)
